@@ -92,6 +92,45 @@ def _is_time_place(pl):
     return bool(fs) and fs[-1]["f"] == "time" and fs[-1].get("o") == CLOCK and pl["p"][-1] is fs[-1]
 
 
+def _is_branch_max(fn, local, own_path):
+    """`local` has exactly two definitions, the clock's own time and another value, each under the edge of a comparison of the two that makes
+    it the larger one (an `if a >= b { a } else { b }` maximum)"""
+    from . import lib2
+    from .lib import switch_info
+    defs = [d for d in fn.defs().get(local, []) if d[2] == "assign" and d[3]["k"] == "use" and "c" not in d[3]["a"]]
+    if len(defs) != 2 or len(fn.defs().get(local, [])) != 2:
+        return False
+    vals = [(d[0], src_of_operand(fn, d[3]["a"]).path()) for d in defs]
+    if sum(1 for _, p_ in vals if p_ == own_path) != 1:
+        return False
+    NEG = {"Lt": "Ge", "Le": "Gt", "Gt": "Le", "Ge": "Lt", "Eq": "Ne", "Ne": "Eq"}
+    FLIP = {"Lt": "Gt", "Le": "Ge", "Gt": "Lt", "Ge": "Le", "Eq": "Eq", "Ne": "Ne"}
+    for db, vp in vals:
+        good = False
+        for sb, _ in lib2.controlling_switches(fn, db):
+            si = switch_info(fn, sb)
+            src = si["src"] if si else None
+            if src is None or src.kind != "rv" or src.rv["k"] != "bin" or src.rv["op"] not in NEG:
+                continue
+            a, b = src_of_operand(fn, src.rv["a"]).path(), src_of_operand(fn, src.rv["b"]).path()
+            if own_path not in (a, b) or a == b:
+                continue
+            op = src.rv["op"] if a == own_path else FLIP[src.rv["op"]]          # own OP other
+            tt, ft = lib2.bool_edges(fn, sb)
+            on_true = tt is not None and (db == tt or db in fn.reach([tt], avoid=[sb])) and not (ft is not None and (db == ft or db in fn.reach([ft], avoid=[sb])))
+            on_false = ft is not None and (db == ft or db in fn.reach([ft], avoid=[sb])) and not (tt is not None and (db == tt or db in fn.reach([tt], avoid=[sb])))
+            if not (on_true or on_false):
+                continue
+            rel = op if on_true else NEG[op]
+            if vp == own_path and rel in ("Ge", "Gt", "Eq"):
+                good = True
+            if vp != own_path and rel in ("Le", "Lt", "Eq"):
+                good = True
+        if not good:
+            return False
+    return True
+
+
 def _r081(ck, prog, cfg):
     n = 0
     for fn in prog.fns.values():
@@ -116,6 +155,9 @@ def _r081(ck, prog, cfg):
                         ok = lhs_s.path() in args
                         if not ok:
                             why = "max(..) does not include the clock's own time"
+                    elif pos and base.kind in ("multi", "path") and base.local is not None and base.local > fn.d["argc"] and _is_branch_max(fn, base.local, lhs_s.path()):
+                        # max written out: `let hi = if self.time >= other.time { self.time } else { other.time }; self.time = hi + 1`
+                        ok = True
                     elif not pos:
                         why = "increment is not a positive constant (%s)" % cval
                 ck.check(ok, "R08.1", key, why + ": a node's clock could repeat or go backwards", fn.where(st["ln"]),
